@@ -27,6 +27,13 @@ QUICK_FUNCS = [
     ("propagators.max_leq_propagator", "compute_domains_max_leq"),
     ("propagators.min_geq_propagator", "compute_domains_min_geq"),
     ("propagators.scc_propagator", "compute_domains_scc"),
+    ("propagators.affine_eq_propagator", "compute_domains_affine_eq"),
+    ("propagators.affine_geq_propagator", "compute_domains_affine_geq"),
+    ("propagators.affine_leq_propagator", "compute_domains_affine_leq"),
+    ("propagators.count_eq_propagator", "compute_domains_count_eq"),
+    ("propagators.exactly_eq_propagator", "compute_domains_exactly_eq"),
+    ("propagators.exactly_true_propagator", "compute_domains_exactly_true"),
+    ("propagators.relation_propagator", "compute_domains_relation"),
     ("propagators.propagators", "pop_propagator"),
     ("propagators.propagators", "add_propagators"),
 ]
@@ -35,6 +42,12 @@ QUICK_FUNCS = [
 def _extent_of(it: Interp, st: State, root: str, axis: int, base_idx: Tuple[Any, ...]) -> Optional[Aff]:
     """Extent of the dimension addressed by the next index component of view root[base_idx]."""
     org = it.allocs.get(root)
+    hops = 0
+    while org and org[0] == "copy" and isinstance(org[1], View) and not org[1].idx and hops < 4:
+        # a copy has the shape of what it copies
+        root = org[1].root
+        org = it.allocs.get(root)
+        hops += 1
     # number of already-fixed scalar components tells which axis of the root comes next
     fixed = sum(1 for c in base_idx if isinstance(c, Aff))
     open_comps = [c for c in base_idx if not isinstance(c, Aff)]
@@ -97,9 +110,9 @@ def analyse_function(prog: Program, fn: FuncInfo) -> List[Dict[str, Any]]:
     for pr in paths:
         s = pr.state
         for e in pr.state.trace:
-            if e.kind != "index" or id(e) in seen_ev:
+            if e.kind != "index":
                 continue
-            seen_ev.add(id(e))
+            # (an event of the common prefix of two paths is judged on each of them: the facts that follow differ)
             base_idx, new = e.value
             node = e.node
             src = ast.unparse(node) if node is not None else "?"
